@@ -280,6 +280,14 @@ def run(cfg, cases, seed=1, limit=300, only=None, keep_src=None, priority=(), ho
             problems.append(dict(kind='missing', cfg=cfg, case=cid, src=item_txt(pit)))
             continue
         stats['compared'] += 1
+        # Debug against the STANDARD derive on a mirror type (items without any skip): no model involved
+        for a, b in (('I-debug', 'I-stddebug'), ('I-debugp', 'I-stddebugp')):
+            if b in io:
+                stats['std_debug_compared'] = stats.get('std_debug_compared', 0) + len(io[b])
+                if io[a] != io[b]:
+                    k = next((j for j in range(min(len(io[a]), len(io[b]))) if io[a][j] != io[b][j]), 0)
+                    problems.append(dict(kind='behaviour', against='R', what='the standard derive(Debug) on a mirror type', tag='debug', cfg=cfg, case=cid, src=item_txt(pit),
+                                         value=vals[k] if k < len(vals) else None, values=vals, implementation=io[a][k] if k < len(io[a]) else None, model=io[b][k] if k < len(io[b]) else None))
         for tag in TAGS:
             il = io.get('I-' + tag)
             if il is None:
